@@ -135,6 +135,18 @@ def run_date_cells(cases, rec, tag, two=None, order=None):
             case = {"part": "date", **cs} if not two else {"part": "dates-two", "cases": cases, "order": order, "two": two}
             try:
                 tb.write(r, c, t)
+                if cs.get("prev"):
+                    # a format the cell had before the one it is judged under (a fifth of the cells): half are displayed under it first
+                    pv = cs["prev"]
+                    if pv["custom"]:
+                        if pv["fmt"] not in customs:
+                            customs[pv["fmt"]] = doc.add_custom_format(name=f"vf {len(customs)}", type="datetime", format=pv["fmt"])
+                        tb.set_cell_formatting(r, c, "custom", format=customs[pv["fmt"]])
+                    else:
+                        tb.set_cell_formatting(r, c, "datetime", date_time_format=pv["fmt"])
+                    if pv["shown"]:
+                        tb.cell(r, c).formatted_value
+                    rec.count("earlier_date_formats_applied")
                 if cs["custom"]:
                     if cs["fmt"] not in customs:
                         customs[cs["fmt"]] = doc.add_custom_format(name=f"vf {len(customs)}", type="datetime", format=cs["fmt"])
@@ -216,6 +228,16 @@ def run_date_cells(cases, rec, tag, two=None, order=None):
     return texts
 
 
+PREV = [{"fmt": "yyyy-MM-dd", "custom": False}, {"fmt": "HH:mm", "custom": False}, {"fmt": "EEEE d MMMM", "custom": True}, {"fmt": "d/M/yy h:mm a", "custom": False}]
+
+
+def with_prev(cases):
+    for i, cs in enumerate(cases):
+        if i % 5 == 2 and cs["fmt"] != "W":
+            cs["prev"] = {**PREV[(i // 5) % len(PREV)], "shown": bool((i // 5) % 2)}
+    return cases
+
+
 def run_dates(spec, rec):
     from vf.ref import datefmt
     ins = instants()
@@ -233,7 +255,7 @@ def run_dates(spec, rec):
         mine += [c for c in cases if c["fmt"] == "W"]
     texts = {}
     for j in range(0, len(mine), 1500):
-        texts.update(run_date_cells(mine[j:j + 1500], rec, f"d{spec['i']}-{j}"))
+        texts.update(run_date_cells(with_prev(mine[j:j + 1500]), rec, f"d{spec['i']}-{j}"))
     for c in mine:
         rec.case(("date", c["fmt"], tuple(c["t"])))
         rec.hist("directive", c["fmt"])
@@ -324,7 +346,7 @@ def run_composites(spec, rec):
         if any(p[0] == "quoted" for p in parts):
             rec.count("quoted_composites")
         rec.case(("comp", fmt, tuple(enc_t(t))))
-    run_date_cells(cases, rec, f"c{spec['stream']}")
+    run_date_cells(with_prev(cases), rec, f"c{spec['stream']}")
     rec.sample({"composite": cases[0]})
 
 
@@ -456,7 +478,7 @@ def run_shard(spec, rec):
 def replay(case, rec):
     p = case.get("part")
     if p == "date":
-        run_date_cells([{k: case[k] for k in ("fmt", "parts", "t", "custom")}], rec, "replay")
+        run_date_cells([{k: case[k] for k in ("fmt", "parts", "t", "custom", "prev") if k in case}], rec, "replay")
         rec.case(("replay", case["fmt"]))
     elif p == "duration":
         run_duration_cells([{k: case[k] for k in ("ms", "li", "si", "style", "auto")}], rec, "replay")
